@@ -303,9 +303,10 @@ def run(ctx):
     sampled = False
     for fam, consts in fams:
         spec, cfg = ctx.model(ctx.spec("array", "IndexingMC.tla"), consts, invariants=invs)
-        cases, _ = ctx.tlc_cases(spec, cfg, label="design+cases:" + fam, timeout=1200)
+        cases, _ = ctx.tlc_cases(spec, cfg, label="design+cases:" + fam, timeout=ctx.pick(1200, 5400))
         total_cases += len(cases)
-        cap = ctx.pick({"slice1d": 25000, "nd": 12000, "vindex": 2000, "blocks": 2000, "vindexc": 2500, "mask": 3000}[fam], 10 ** 9)
+        cap = ctx.pick({"slice1d": 25000, "nd": 12000, "vindex": 2000, "blocks": 2000, "vindexc": 2500, "mask": 3000}[fam],
+                       {"slice1d": 250000, "nd": 120000, "vindex": 30000, "blocks": 30000, "vindexc": 30000, "mask": 30000}[fam])
         if len(cases) > cap:
             sampled = True
             cases = ctx.rng.sample(cases, cap)
@@ -330,7 +331,7 @@ def run(ctx):
     spec, cfg = ctx.model(ctx.spec("array", "IndexingTrace.tla"), {})
     for lo in range(0, len(recs), 5000):
         part = recs[lo:lo + 5000]
-        rej = ctx.tlc_validate(spec, part, cfg, timeout=1800)
+        rej = ctx.tlc_validate(spec, part, cfg, timeout=ctx.pick(1800, 5400))
         byid = {r["id"]: r for r in part}
         for r in part:
             ctx.count(("rec", r["shape"], r["chunks"], r["comps"], r["indexer"]), r["obs"]["raised"] == "" and len(r["obs"]["cells"]) > 0)
